@@ -132,7 +132,9 @@ class SchemaBase(object):
         :param arg_specs: dictionary of named args to type specifications.
         :param return_spec: optional return type specification.
         """
-        self.arg_specs = _prep_schema_specification(arg_specs)
+        self.arg_specs = _prep_schema_specification(
+            arg_specs if arg_specs is not None else dict()
+        )
         self.return_spec = _prep_schema_specification(return_spec)
 
 
